@@ -248,7 +248,7 @@ def judge_single(call, chk, probe=None):
         strict = opts['errors'] == 'raise' and bool(opts['catch_first_error'])
         for r in evals[: E['npass']]:
             if r.get('act') in ('npwarn', 'pywarn'):
-                raised_warning = r['exc'] in ('RuntimeWarning',)
+                raised_warning = r['exc'] in ('RuntimeWarning', 'UserWarning', 'FutureWarning', 'DeprecationWarning')
                 P('warning-statement:' + ('strict' if strict else 'lenient'))
                 chk('warning-statement/error-iff-raise-and-catch_first_error', raised_warning == strict, {'errors': opts['errors'], 'catch_first_error': opts['catch_first_error'], 'raised': r['exc'], 'act': r.get('act')})
                 if strict and r.get('act') == 'npwarn' and r.get('npwarn_j') is not None:
